@@ -49,7 +49,7 @@ Definition native_utctimetuple8 (x : dtv) : result (list Z) :=
   let U := instant x in if wall_in_range U then Ok (tt_of_wall U) else Raise E_OverflowError.
 (* timestamp() of an aware value, in microseconds since 1970 (the float is total_seconds of this) *)
 Definition native_timestamp_us (x : dtv) : Z := instant x - EPOCH_US.
-(* date() / time() / timetz(): fields (time() drops tzinfo and KEEPS fold) *)
+(* date() / time() / timetz(): fields (time() drops tzinfo and KEEPS fold; timetz() keeps both) *)
 Definition date_fields_of (w : Z) : Z * Z * Z := ord2ymd (w / us_per_day + 1).
 Definition time_fields_of (w : Z) : Z * Z * Z * Z :=
   let t := w mod us_per_day in let s := t / 1000000 in (s / 3600, (s / 60) mod 60, s mod 60, t mod 1000000).
@@ -110,9 +110,11 @@ Definition native_astimezone (x : dtv) (tz : tzi) : result dtv :=
   end.
 
 (* ------------------------------------------------------------------------------------------------ part 2: pendulum overrides *)
-(* DateTime.date(): Date(self.year, self.month, self.day) ; DateTime.time(): Time(hour, minute, second, microsecond) — no fold argument *)
+(* DateTime.date(): Date(self.year, self.month, self.day) ; DateTime.time(): Time(hour, minute, second, microsecond, fold=self.fold) ;
+   DateTime.timetz(): Time(hour, minute, second, microsecond, tzinfo=self.tzinfo, fold=self.fold)  (Time has no __new__: the native constructor) *)
 Definition pd_date (x : dtv) : tytag * (Z * Z * Z) := (TyDate, date_fields_of (v_wall x)).
-Definition pd_time (x : dtv) : tytag * (Z * Z * Z * Z) * bool := (TyTime, time_fields_of (v_wall x), false).
+Definition pd_time (x : dtv) : tytag * (Z * Z * Z * Z) * bool := (TyTime, time_fields_of (v_wall x), v_fold x).
+Definition pd_timetz (x : dtv) : tytag * (Z * Z * Z * Z) * bool * option tzi := (TyTime, time_fields_of (v_wall x), v_fold x, v_tz x).
 
 (* DateTime.create(fields, tz, fold): Model/TzConvert.v create ; naive when tz is None *)
 Definition pd_create (tz : option tzi) (W : Z) (f : bool) : result dtv :=
@@ -183,9 +185,9 @@ Definition pd_fromordinal (n : Z) : result dtv :=
 (* Date.__sub__(date): Interval(Date(other), self): days ; the length goes through float seconds as well *)
 Definition pd_date_sub (n1 n2 : Z) : result (tytag * Z) :=
   bind (td_of_float_seconds (total_seconds ((n1 - n2) * us_per_day))) (fun N => Ok (TyInterval, N)).
-(* Time.__sub__(time) = other.diff(self, False): whole seconds only (microseconds are not part of us1/us2) *)
+(* Time.__sub__(time) = other.diff(self, False): us1/us2 are (hour*3600 + minute*60 + second) * 1e6 + microsecond (fix f98403b) *)
 Definition pd_time_sub (h1 m1 s1 us1 h2 m2 s2 us2 : Z) : tytag * Z :=
-  (TyDuration, ((h1 * 3600 + m1 * 60 + s1) - (h2 * 3600 + m2 * 60 + s2)) * 1000000).
+  (TyDuration, ((h1 * 3600 + m1 * 60 + s1) * 1000000 + us1) - ((h2 * 3600 + m2 * 60 + s2) * 1000000 + us2)).
 
 (* FixedTimezone.utcoffset / dst / fromutc *)
 Definition fixed_utcoffset (offset : Z) : Z := offset.
@@ -227,6 +229,7 @@ Definition override_coverage (cls name owner : string) : option coverage :=
   if String.eqb cls "DateTime" then
     if is "date" then Some (Modelled "pd_date")
     else if is "time" then Some (Modelled "pd_time")
+    else if is "timetz" then Some (Modelled "pd_timetz")
     else if is "astimezone" then Some (Modelled "pd_astimezone")
     else if is "__sub__" || is "__rsub__" then Some (Modelled "pd_sub")
     else if is "__add__" || is "__radd__" then Some (Referenced "C03/C04: DateTime.add via _add_timedelta_")
@@ -266,16 +269,18 @@ Definition all_overrides_covered : bool :=
 
 (* the integer-valued standard accessors of a DateTime *)
 Inductive acc := A_toordinal | A_weekday | A_isoweekday | A_isocalendar | A_timetuple | A_utctimetuple | A_utcoffset | A_timestamp
-               | A_date | A_time | A_hash.
+               | A_date | A_time | A_timetz | A_hash.
 Definition acc_name (a : acc) : string :=
   match a with
   | A_toordinal => "toordinal" | A_weekday => "weekday" | A_isoweekday => "isoweekday" | A_isocalendar => "isocalendar"
   | A_timetuple => "timetuple" | A_utctimetuple => "utctimetuple" | A_utcoffset => "utcoffset" | A_timestamp => "timestamp"
-  | A_date => "date" | A_time => "time" | A_hash => "__hash__"
+  | A_date => "date" | A_time => "time" | A_timetz => "timetz" | A_hash => "__hash__"
   end.
 Definition NONE : Z := 999999999999.
 (* observation of a result as integers (type tag of an object-valued result first: 1 = pendulum type, 0 = native type) *)
 Definition tag_code (t : tytag) : Z := Z.b2z (is_pendulum_type t).
+(* the tzinfo object carried by a result: its identity, NONE for None *)
+Definition tz_code (tz : option tzi) : Z := match tz with Some t => tz_id t | None => NONE end.
 Definition native_acc (a : acc) (x : dtv) : result (list Z) :=
   match a with
   | A_toordinal => Ok [native_toordinal x]
@@ -288,12 +293,14 @@ Definition native_acc (a : acc) (x : dtv) : result (list Z) :=
   | A_timestamp => Ok [native_timestamp_us x]
   | A_date => let '(t, (y, m, d)) := native_date x in Ok [tag_code t; y; m; d]
   | A_time => let '(t, (h, mi, s, us), f) := native_time x in Ok [tag_code t; h; mi; s; us; Z.b2z f]
+  | A_timetz => let '(t, (h, mi, s, us), f, tz) := native_timetz x in Ok [tag_code t; h; mi; s; us; Z.b2z f; tz_code tz]
   | A_hash => Ok [snd (native_hash_key x)]
   end.
 Definition pendulum_acc (a : acc) (x : dtv) : option (result (list Z)) :=
   match a with
   | A_date => let '(t, (y, m, d)) := pd_date x in Some (Ok [tag_code t; y; m; d])
   | A_time => let '(t, (h, mi, s, us), f) := pd_time x in Some (Ok [tag_code t; h; mi; s; us; Z.b2z f])
+  | A_timetz => let '(t, (h, mi, s, us), f, tz) := pd_timetz x in Some (Ok [tag_code t; h; mi; s; us; Z.b2z f; tz_code tz])
   | _ => None
   end.
 (* what a DateTime answers: by the generated table, the native slot (inherited) or the override's model.
